@@ -6,8 +6,9 @@ Part A restates the decision-tree theorems of `Netpol.Model.Sort` about
 `sortAdminNetpolsByPriority` (any correct comparison sort, run with the Go `less` callback that
 sets an error flag, reports every priority conflict). Part B is about the model of
 `addObjectsByKind` (`Engine.build` = fold of `Engine.insertObject`, then `Engine.sortANPs`, then
-`Engine.resolveMissingNamespaces`) and about `Engine.podOwnersMap`. Part C is the converse (no
-false alarm).
+`Engine.resolveMissingNamespaces`) and about `Engine.podOwnersMap`; it includes the priority checks
+of `InsertObject` (`insert_same_priority_rejected`, `insert_invalid_priority_rejected`,
+`build_sort_never_fails`). Part C is the converse (no false alarm).
 
 Vocabulary from `Netpol.Structure`: `npNs p` is the namespace after defaulting (`""` ↦
 `"default"`), `npKey p = (npNs p, p.name)`; `npsOf/anpsOf/banpsOf/podsOf objs` are the objects of
@@ -76,13 +77,19 @@ theorem dup_netpol_error {e : Engine} {p : NetPol} (h : hasNetpol e (npNs p) p.n
     e.insertObject (.np p) = .error .dupNetpol := insertObject_np_dup h
 
 /-- whatever makes the insertion fold fail, the error is one of the conflict classes
-`conflictErrs = [dupNetpol, dupANP, banpExists, banpName, badPod]` (an earlier conflict in the
-list may pre-empt the one a theorem below speaks about) -/
+`conflictErrs = [dupNetpol, dupANP, anpPriority, banpExists, banpName, badPod]` (an earlier
+conflict in the list may pre-empt the one a theorem below speaks about). `anpPriority` belongs to
+the list since `insertAdminNetworkPolicy` refuses a priority outside 0..1000 or held already: with
+the former five-element list the statement is false for the model of the repaired tool, see the
+example below. -/
 theorem fold_error_class {objs : List Obj} {err : Err}
     (h : objs.foldlM insertObject ({} : Engine) = .error err) : err ∈ conflictErrs :=
   Structure.fold_error_class rfl h
 
-/-- the errors of `build` are the conflict classes and `anpPriority` -/
+example : conflictErrs = [.dupNetpol, .dupANP, .anpPriority, .banpExists, .banpName, .badPod] := rfl
+
+/-- the errors of `build` are the conflict classes and `anpPriority` (which is one of them now:
+the second disjunct is kept for the readers of the former statement) -/
 theorem build_error_class {objs : List Obj} {err : Err} (h : Engine.build objs = .error err) :
     err ∈ conflictErrs ∨ err = .anpPriority := by
   rw [build_eq] at h
@@ -195,7 +202,10 @@ theorem invalid_priority_rejected (objs : List Obj) {a : ANP} (ha : .anp a ∈ o
     have := priority_conflict_rejected_model e (Or.inr ⟨a, fold_anps_mem hfold ha, hprio⟩)
     exact ⟨.anpPriority, by simp only [this]⟩
 
-/-- if the fold succeeds, the error is exactly `anpPriority` -/
+/-- if the fold succeeds, the error is exactly `anpPriority`. (Kept as stated; since `insertANP`
+examines the priorities the two hypotheses exclude each other — the fold does not succeed on such
+an input, `priority_conflict_rejected_fold` below — so the statement is vacuous for the present
+model.) -/
 theorem priority_conflict_error (objs : List Obj) {e : Engine}
     (hfold : objs.foldlM insertObject ({} : Engine) = .ok e)
     (h : (∃ (i j : Nat) (a b : ANP), i < j ∧ objs[i]? = some (.anp a) ∧ objs[j]? = some (.anp b) ∧ a.prio = b.prio) ∨
@@ -212,6 +222,82 @@ theorem priority_conflict_error (objs : List Obj) {e : Engine}
       exact not_nodup_of_split
     · exact priority_conflict_rejected_model e (Or.inr ⟨a, fold_anps_mem hfold ha, hv⟩)
   simp only [this]
+
+/-! ### the priority checks of `InsertObject`
+
+`insertAdminNetworkPolicy` itself refuses a priority outside 0..1000 and a priority some held
+policy has (after the exposure flag and the name; before the name is registered), so the entry
+point `InsertObject` — the one `eval` fills its engine with — rejects what the sort of the batch
+path rejects, and the batch path never reaches its sort with a conflict. -/
+
+/-- **`InsertObject` of an ANP whose priority is held by another policy of the engine is
+rejected**, whatever the engine; the error is `anpPriority` when the two earlier checks pass
+(exposure analysis off, name not registered). No engine is returned: the caller keeps the one it
+had (`Properties.C15.insert_same_priority_noop` says so for the state with its cache). -/
+theorem insert_same_priority_rejected {e : Engine} {a b : ANP} (hb : b ∈ e.anps)
+    (hp : b.prio = a.prio) :
+    (∃ err, e.insertObject (.anp a) = .error err) ∧
+    (e.exposure = false → a.name ∉ e.anpNames → e.insertObject (.anp a) = .error .anpPriority) := by
+  refine ⟨?_, fun hexp hn => insertANP_same_prio hexp hn hb hp⟩
+  cases h : e.insertObject (.anp a) with
+  | error err => exact ⟨err, rfl⟩
+  | ok e' => exact absurd hp ((insertObject_anp_prio h).2 b hb)
+
+/-- **`InsertObject` of an ANP whose priority is outside 0..1000 is rejected**, likewise -/
+theorem insert_invalid_priority_rejected {e : Engine} {a : ANP}
+    (hprio : ¬ (0 ≤ a.prio ∧ a.prio ≤ 1000)) :
+    (∃ err, e.insertObject (.anp a) = .error err) ∧
+    (e.exposure = false → a.name ∉ e.anpNames → e.insertObject (.anp a) = .error .anpPriority) := by
+  have hv : a.validPriority = false := by unfold ANP.validPriority; simpa using hprio
+  refine ⟨?_, fun hexp hn => insertANP_invalid hexp hn hv⟩
+  cases h : e.insertObject (.anp a) with
+  | error err => exact ⟨err, rfl⟩
+  | ok e' => rw [(insertObject_anp_prio h).1] at hv; cases hv
+
+/-- conversely an ANP is accepted by `InsertObject` exactly when the four checks pass -/
+theorem insert_anp_accepted_iff {e : Engine} {a : ANP} :
+    (∃ e', e.insertObject (.anp a) = .ok e') ↔
+      e.exposure = false ∧ a.name ∉ e.anpNames ∧ (0 ≤ a.prio ∧ a.prio ≤ 1000) ∧
+        ∀ b ∈ e.anps, b.prio ≠ a.prio := by
+  have hv : a.validPriority = true ↔ (0 ≤ a.prio ∧ a.prio ≤ 1000) := by
+    unfold ANP.validPriority; simp
+  rw [← hv]
+  exact insertANP_ok_iff
+
+/-- after a successful insertion fold the held priorities are pairwise distinct and within
+0..1000 … -/
+theorem fold_priorities_clean {objs : List Obj} {e : Engine}
+    (h : objs.foldlM insertObject ({} : Engine) = .ok e) :
+    (e.anps.map (·.prio)).Nodup ∧ ∀ a ∈ e.anps, 0 ≤ a.prio ∧ a.prio ≤ 1000 := by
+  obtain ⟨h1, h2⟩ := fold_prioInv h prioInv_empty
+  refine ⟨h1, fun a ha => ?_⟩
+  have := h2 a ha
+  unfold ANP.validPriority at this
+  simpa using this
+
+/-- … so **`build` never reaches `sortANPs` with a conflict**: the sort accepts whatever the fold
+accepts … -/
+theorem build_sort_never_fails {objs : List Obj} {e : Engine}
+    (h : objs.foldlM insertObject ({} : Engine) = .ok e) : ∃ e', e.sortANPs = .ok e' :=
+  fold_sortANPs_ok h
+
+/-- … and `build` fails exactly when the insertion fold fails, with the error of the fold: a
+priority conflict is reported by the object that brings it, as `InsertObject` reports it -/
+theorem build_error_iff_fold {objs : List Obj} {err : Err} :
+    Engine.build objs = .error err ↔ objs.foldlM insertObject ({} : Engine) = .error err :=
+  Structure.build_error_iff_fold
+
+/-- the fold version of `same_priority_rejected` / `invalid_priority_rejected` -/
+theorem priority_conflict_rejected_fold (objs : List Obj)
+    (h : (∃ (i j : Nat) (a b : ANP), i < j ∧ objs[i]? = some (.anp a) ∧ objs[j]? = some (.anp b) ∧ a.prio = b.prio) ∨
+      (∃ a : ANP, .anp a ∈ objs ∧ ¬ (0 ≤ a.prio ∧ a.prio ≤ 1000))) :
+    ∃ err, objs.foldlM insertObject ({} : Engine) = .error err := by
+  cases hf : objs.foldlM insertObject ({} : Engine) with
+  | error err => exact ⟨err, rfl⟩
+  | ok e =>
+    have := priority_conflict_error objs hf h
+    rw [Structure.build_error_iff_fold, hf] at this
+    cases this
 
 /-! ### owner labels -/
 
@@ -268,7 +354,12 @@ theorem conflict_free_accepted (objs : List Obj)
     (hvalid : ∀ a ∈ anpsOf objs, 0 ≤ a.prio ∧ a.prio ≤ 1000) :
     ∃ e, Engine.build objs = .ok e := by
   obtain ⟨e, he⟩ := fold_ok_of_conflict_free objs {} rfl (by simpa using hnp) (by simpa using hanp)
-    (by simpa using hbanp) hbn hpod
+    (by simpa using hbanp) hbn hpod (by simpa using hprio)
+    (fun a ha => by
+      have := hvalid a ha
+      unfold ANP.validPriority
+      simp only [ge_iff_le, decide_eq_true_eq]
+      exact this)
   have hperm := fold_anps_perm he
   obtain ⟨e', he'⟩ := sortANPs_ok_of (e := e)
     (fun a ha => by
@@ -309,6 +400,15 @@ example : errOf (Engine.build [.banp banp1, .np np1, .banp banp1]) = some .banpE
 example : errOf (Engine.build [.np np1, .banp banp2]) = some .banpName := by decide
 example : errOf (Engine.build [.anp anp1, .np np1, .anp anp2]) = some .anpPriority := by decide
 example : errOf (Engine.build [.np np1, .anp anp3]) = some .anpPriority := by decide
+/-- the insertion fold itself raises `anpPriority` (it did not before `insertANP` examined the
+priorities: `fold_error_class` with the five former classes is false for this input) -/
+example : errOf ([Obj.anp anp1, .np np1, .anp anp2].foldlM insertObject ({} : Engine)) =
+    some .anpPriority := by decide
+example : errOf ([Obj.np np1, .anp anp3].foldlM insertObject ({} : Engine)) = some .anpPriority := by
+  decide
+/-- the first conflict met is the one reported: a repeated name and a repeated priority -/
+example : errOf (Engine.build [.anp anp1, .anp anp2, .anp anp4]) = some .anpPriority := by decide
+example : errOf (Engine.build [.anp anp1, .anp anp4, .anp anp2]) = some .dupANP := by decide
 example : errOf (Engine.build [.anp anp1, .np np1, .banp banp1, .np np3, .ns nsX]) = none := by
   decide
 /-- the hypotheses of `conflict_free_accepted` hold for that last input -/
